@@ -1267,6 +1267,13 @@ class Proto:
         if name in ('std::thread::functions::park', 'std::thread::functions::park_timeout') and record:
             # what the owner last saw of its queue when it goes to sleep
             self.events[('park', self._evn(fn), '')].add((st.T, st.P))
+        if name == 'core::ops::try_trait::FromResidual::from_residual' and not t['dest']['p']:
+            # the early exit of `opt?` / `res?`: the function's own result is built from the residual, i.e. it is None / Err
+            head = ty_head(clean_ty(fn.local_ty(t['dest']['l'])))
+            if head == 'core::option::Option':
+                return done(st, ('enum', 'None'))
+            if head == 'core::result::Result':
+                return done(st, ('enum', 'Err'))
         PRED = {'core::task::poll::Poll::is_ready': 'Ready', 'core::task::poll::Poll::is_pending': 'Pending', 'core::option::Option::is_some': 'Some',
                 'core::option::Option::is_none': 'None', 'core::result::Result::is_ok': 'Ok', 'core::result::Result::is_err': 'Err'}
         if name in PRED and args and args[0]['k'] != 'const':
